@@ -159,6 +159,9 @@ class Exec:
     def test(self, t):
         s = self.subject
         sh = self.sh
+        if getattr(self, "alias", None):
+            from ..symexec import subst
+            t = subst(t, self.alias)
         if isinstance(t, ast.BoolOp):
             vals = [self.test(v) for v in t.values]
             return all(vals) if isinstance(t.op, ast.And) else any(vals)
@@ -272,8 +275,31 @@ class Exec:
     def run(self, stmts):
         """-> ('return', term|None) or ('fall', None)"""
         s = self.subject
+        from ..symexec import subst
         for st in stmts:
             if isinstance(st, (ast.ImportFrom, ast.Import)) or (isinstance(st, ast.Expr) and isinstance(st.value, ast.Constant)):
+                continue
+            if getattr(self, "alias", None) and not isinstance(st, (ast.If, ast.For)):
+                ln = st.lineno
+                st = subst(st, self.alias)       # locals that merely name a child node (`scaled = expr.right`)
+                st.lineno = ln
+            if isinstance(st, ast.Assign) and isinstance(st.targets[0], ast.Tuple) and isinstance(st.value, ast.Tuple) and len(st.targets[0].elts) == len(st.value.elts) and all(isinstance(t, ast.Name) for t in st.targets[0].elts):
+                # a, b = x, y  ==  simultaneous single assignments (right-hand sides read the old bindings)
+                pairs = list(zip(st.targets[0].elts, st.value.elts))
+                vals = []
+                for t_, v_ in pairs:
+                    if isinstance(v_, ast.Attribute) and src(v_) in (f"{s}.left", f"{s}.right", f"{s}.operand"):
+                        vals.append(("alias", v_))
+                    else:
+                        vals.append(("val", self.val(v_)))
+                for (t_, _v), (k_, x_) in zip(pairs, vals):
+                    if k_ == "alias":
+                        self.alias = {**getattr(self, "alias", {}), t_.id: x_}
+                    else:
+                        self.env[t_.id] = x_
+                continue
+            if isinstance(st, ast.Assign) and isinstance(st.targets[0], ast.Name) and isinstance(st.value, ast.Attribute) and src(st.value) in (f"{s}.left", f"{s}.right", f"{s}.operand"):
+                self.alias = {**getattr(self, "alias", {}), st.targets[0].id: st.value}
                 continue
             if isinstance(st, ast.If):
                 r = self.test(st.test)
@@ -578,58 +604,212 @@ def _opkey(text):
 
 
 # ---------------------------------------------------------------------------------------------- R05.4 / R05.5
+def _index_map_over(prog, fi, expr, seq_name, depth=0):
+    """Is ``expr`` (in function fi) the name -> position map {v.name: i for i, v in enumerate(<seq_name>)}, written
+    in place, held in a local, or produced by a helper whose single return is such a map over its own parameter?"""
+    assigns = local_assignments(fi.node)
+    if isinstance(expr, ast.Name) and depth < 3:
+        vals = [v for v in assigns.get(expr.id, []) if isinstance(v, ast.AST)]
+        return bool(vals) and all(_index_map_over(prog, fi, v, seq_name, depth + 1) for v in vals)
+    if isinstance(expr, ast.DictComp) and len(expr.generators) == 1:
+        g = expr.generators[0]
+        if isinstance(g.iter, ast.Call) and dotted(g.iter.func) == "enumerate" and g.iter.args and src(g.iter.args[0]) == seq_name and isinstance(g.target, ast.Tuple) and len(g.target.elts) == 2 and not g.ifs:
+            i, v = [src(e) for e in g.target.elts]
+            return src(expr.key) == f"{v}.name" and src(expr.value) == i
+        return False
+    if isinstance(expr, ast.Call) and len(expr.args) == 1 and not expr.keywords and src(expr.args[0]) == seq_name and depth < 3:
+        h = None
+        if isinstance(expr.func, ast.Attribute) and isinstance(expr.func.value, ast.Name) and expr.func.value.id in ("self", "cls") and fi.cls is not None:
+            h = prog.lookup_method(fi.cls.name, expr.func.attr)
+        elif isinstance(expr.func, ast.Name):
+            h = prog.functions.get(f"{fi.module.name}:{expr.func.id}")
+        if h is not None:
+            ps = [a.arg for a in h.node.args.args if a.arg not in ("self", "cls")]
+            rets = [r.value for r in walk_local(h.node) if isinstance(r, ast.Return)]
+            return len(ps) == 1 and len(rets) == 1 and rets[0] is not None and _index_map_over(prog, h, rets[0], ps[0], depth + 1)
+    return False
+
+
 def _senses(prog, rep):
+    """R05.4: each constraint  expr (sense) 0  with  expr = a.x + k  enters the LP as
+        ==  ->  (a, -k) in the equality block,   <=  ->  (a, -k) in the <= block,   >=  ->  (-a, k) in the <= block,
+    and the four returned matrices are built from their own lists in the order (A_ub, b_ub, A_eq, b_eq).  The loop
+    body is walked once per sense with locals substituted, so rebinding (`row, rhs = -row, -rhs`), early
+    `continue`s and the order of the arms do not matter."""
+    from ..scenario import Explorer
+    from ..symexec import subst
+
     ec = prog.cls("LinearProgramExtractor").methods.get("extract_constraints")
     if ec is None:
         raise AnalysisError("extract_constraints not found")
-    assigns = local_assignments(ec.node)
-    rhs = [v for v in assigns.get("rhs", [])]
-    ok = bool(rhs) and isinstance(rhs[0], ast.UnaryOp) and isinstance(rhs[0].op, ast.USub) and "extract_constant_term(constraint.expr)" in src(rhs[0])
-    rep.pin('extract_constraints', "R05.4", "extract_constraints", ok, "rhs = -constant term (expr = A.x - b)" if ok else "the right-hand side is not the negated constant term of the constraint expression", loc=ec.loc, detail="rhs-sign")
-    row = assigns.get("row", [])
-    ok = bool(row) and "extract_all_linear_coefficients(constraint.expr, var_index, n)" in src(row[0])
-    rep.pin('extract_constraints', "R05.4", "extract_constraints", ok, "row = coefficients of the constraint expression in the column map" if ok else "the row is not extracted from constraint.expr with the column map", loc=ec.loc, detail="row")
-    want = {"==": ("eq_rows", "row", "eq_rhs", "rhs"), "<=": ("ub_rows", "row", "ub_rhs", "rhs"), ">=": ("ub_rows", "-row", "ub_rhs", "-rhs")}
-    seen = set()
-    for n in walk_local(ec.node):
-        if isinstance(n, ast.If):
-            t = op_test(n.test)
-            if t and t[0] == "constraint.sense" and not t[2]:
-                sense = t[1][0]
-                seen.add(sense)
-                apps = [(src(c.func.value), src(c.args[0])) for c in calls(ast.Module(body=n.body, type_ignores=[])) if isinstance(c.func, ast.Attribute) and c.func.attr == "append"]
-                w = want.get(sense)
-                ok = w is not None and apps == [(w[0], w[1]), (w[2], w[3])]
-                rep.pin('extract_constraints', "R05.4", "extract_constraints", ok,
-                       f"{sense}: ({w[1]}, {w[3]}) appended to ({w[0]}, {w[2]})" if ok else
-                       f"sense {sense!r} appends {apps}; expected {[(w[0], w[1]), (w[2], w[3])] if w else 'no such sense'}: the row enters the LP with the wrong sign or in the wrong block",
-                       loc=f"{ec.module.rel}:{n.lineno}", detail=f"sense:{sense}")
-    missing = {"==", "<=", ">="} - seen
-    rep.pin('extract_constraints', "R05.4", "extract_constraints", not missing, "all three senses are handled" if not missing else f"sense(s) {sorted(missing)} fall through silently: those constraints vanish from the LP", loc=ec.loc, detail="all-senses")
-    s = src(ec.node)
-    blocks = Frag(s, "A_ub = np.array(ub_rows, dtype=np.float64) if ub_rows else None", "b_ub = np.array(ub_rhs, dtype=np.float64) if ub_rhs else None", "A_eq = np.array(eq_rows, dtype=np.float64) if eq_rows else None", "b_eq = np.array(eq_rhs, dtype=np.float64) if eq_rhs else None", "return (A_ub, b_ub, A_eq, b_eq)")
-    rep.pin('extract_constraints', "R05.4", "extract_constraints", blocks, "matrices are assembled from their own row/rhs lists and returned in the order (A_ub, b_ub, A_eq, b_eq)" if blocks else "the row/rhs lists are not assembled into (A_ub, b_ub, A_eq, b_eq) one-to-one", loc=ec.loc, detail="assembly")
+    loops = [n for n in walk_local(ec.node) if isinstance(n, ast.For) and src(n.iter).endswith(".constraints") and isinstance(n.target, ast.Name)]
+    if len(loops) != 1:
+        rep.undecided("extract_constraints: loop over the problem's constraints not found")
+        return
+    loop = loops[0]
+    cvar = loop.target.id
+    vparam = [a.arg for a in ec.node.args.args][-1]
+
+    def core(e):
+        """(parity of unary minus, innermost expression)"""
+        k = 0
+        while True:
+            if isinstance(e, ast.UnaryOp) and isinstance(e.op, ast.USub):
+                k += 1
+                e = e.operand
+            elif isinstance(e, ast.Call) and dotted(e.func) == "float" and len(e.args) == 1:
+                e = e.args[0]
+            else:
+                return k % 2, e
+
+    table = {}
+    for sense in ("==", "<=", ">="):
+        def atom_truth(t, state, sense=sense):
+            t2 = subst(t, state["env"])
+            ot = op_test(t2)
+            if ot and ot[0] == f"{cvar}.sense":
+                hit = sense in ot[1]
+                return (not hit) if ot[2] else hit
+            if isinstance(t2, ast.Call) and (dotted(t2.func) or "").endswith("is_linear"):
+                return True
+            return None
+
+        def on_stmt(st, state):
+            env = state["env"]
+            if isinstance(st, ast.Assign) and len(st.targets) == 1:
+                tg = st.targets[0]
+                if isinstance(tg, ast.Name):
+                    env[tg.id] = subst(st.value, env)
+                elif isinstance(tg, ast.Tuple) and isinstance(st.value, ast.Tuple) and len(tg.elts) == len(st.value.elts):
+                    vals = [subst(v, env) for v in st.value.elts]
+                    for t_, v_ in zip(tg.elts, vals):
+                        if isinstance(t_, ast.Name):
+                            env[t_.id] = v_
+            elif isinstance(st, ast.AugAssign) and isinstance(st.target, ast.Name) and isinstance(st.op, ast.Mult) and isinstance(st.value, ast.UnaryOp) and isinstance(st.value.op, ast.USub) and isinstance(st.value.operand, ast.Constant) and st.value.operand.value == 1:
+                env[st.target.id] = ast.UnaryOp(op=ast.USub(), operand=env.get(st.target.id, ast.Name(id=st.target.id, ctx=ast.Load())))
+            elif isinstance(st, ast.Expr) and isinstance(st.value, ast.Call) and isinstance(st.value.func, ast.Attribute) and st.value.func.attr == "append" and isinstance(st.value.func.value, ast.Name) and st.value.args:
+                state["events"].append((st.value.func.value.id, subst(st.value.args[0], env)))
+
+        paths = Explorer(atom_truth, on_stmt).explore(loop.body, {"env": {}, "events": []})
+        evs = {tuple((l, src(v)) for l, v in st_["events"]) for st_, term in paths if term != "raise"}
+        if len(evs) != 1:
+            rep.undecided(f"extract_constraints[{sense}]: the appends depend on tests this rule cannot interpret ({len(evs)} variants)")
+            table = None
+            break
+        table[sense] = [(l, v) for st_, term in paths if term != "raise" for l, v in st_["events"]][: len(next(iter(evs)))]
+    if table is None:
+        return
+    # classify appended values
+    cls = {}
+    for sense, events in table.items():
+        rowev = [(l, core(v)) for l, v in events if isinstance(core(v)[1], ast.Call) and (dotted(core(v)[1].func) or "").endswith("extract_all_linear_coefficients")]
+        conev = [(l, core(v)) for l, v in events if isinstance(core(v)[1], ast.Call) and (dotted(core(v)[1].func) or "").endswith("extract_constant_term")]
+        other = [(l, src(v)) for l, v in events if (l, core(v)) not in rowev and (l, core(v)) not in conev]
+        cls[sense] = (rowev, conev, other)
+    missing = sorted(s_ for s_, (r, c, o) in cls.items() if not r and not c)
+    rep.ob("R05.4", "extract_constraints", not missing, "all three senses are handled" if not missing else f"sense(s) {missing} fall through silently: those constraints vanish from the LP", loc=ec.loc, detail="all-senses")
+    # the returned blocks
+    rets = [r.value for r in walk_local(ec.node) if isinstance(r, ast.Return) and r.value is not None]
+    lists = sorted({l for evs_ in table.values() for l, _v in evs_})
+    blocks = None
+    if len(rets) == 1 and isinstance(rets[0], ast.Tuple) and len(rets[0].elts) == 4:
+        assigns = local_assignments(ec.node)
+
+        def refs(e, depth=0):
+            out = set()
+            for n in ast.walk(e):
+                if isinstance(n, ast.Name):
+                    if n.id in lists:
+                        out.add(n.id)
+                    elif depth < 3:
+                        for v in assigns.get(n.id, []):
+                            if isinstance(v, ast.AST):
+                                out |= refs(v, depth + 1)
+            return out
+
+        blocks = [refs(e) for e in rets[0].elts]
+    if blocks is None or any(len(b_) != 1 for b_ in blocks) or len({next(iter(b_)) for b_ in blocks}) != 4:
+        if blocks is None:
+            rep.undecided("extract_constraints: the returned 4-tuple of blocks not found")
+            return
+        rep.ob("R05.4", "extract_constraints", False, f"the four returned blocks are built from {[sorted(b_) for b_ in blocks]}: not one list each", loc=ec.loc, detail="assembly")
+        return
+    A_ub, b_ub, A_eq, b_eq = [next(iter(b_)) for b_ in blocks]
+    rep.ob("R05.4", "extract_constraints", True, f"the returned blocks (A_ub, b_ub, A_eq, b_eq) are built from ({A_ub}, {b_ub}, {A_eq}, {b_eq}), one list each", loc=ec.loc, detail="assembly")
+    want = {"==": (A_eq, b_eq, 0, 1), "<=": (A_ub, b_ub, 0, 1), ">=": (A_ub, b_ub, 1, 0)}
+    for sense in ("==", "<=", ">="):
+        rowev, conev, other = cls[sense]
+        if not rowev and not conev:
+            continue
+        LA, Lb, prow, pcon = want[sense]
+        ok = len(rowev) == 1 and len(conev) == 1 and not other and rowev[0][0] == LA and conev[0][0] == Lb and rowev[0][1][0] == prow and conev[0][1][0] == pcon
+        got = f"row {'-' if rowev and rowev[0][1][0] else '+'}a -> {rowev[0][0] if rowev else '?'}, rhs {'+' if conev and conev[0][1][0] == 0 else '-'}k -> {conev[0][0] if conev else '?'}"
+        rep.ob("R05.4", "extract_constraints", ok,
+               f"{sense}: ({'-' if prow else ''}a, {'' if pcon == 0 else '-'}k) appended to ({LA}, {Lb})" if ok else
+               f"sense {sense!r}: {got}; expected row {'-' if prow else '+'}a -> {LA}, rhs {'+' if pcon == 0 else '-'}k -> {Lb}: the row enters the LP with the wrong sign or in the wrong block",
+               loc=f"{ec.module.rel}:{loop.lineno}", detail=f"sense:{sense}")
+        # the row is extracted from the constraint's own expression with the column map of the list passed in
+        if rowev:
+            call = rowev[0][1][1]
+            a0 = src(call.args[0]) if call.args else "?"
+            okr = a0 == f"{cvar}.expr"
+            rep.ob("R05.4", "extract_constraints", okr, "row = coefficients of the constraint's own expression" if okr else f"the row is extracted from `{a0}`, not from {cvar}.expr", loc=f"{ec.module.rel}:{loop.lineno}", detail=f"row:{sense}")
+        if conev:
+            call = conev[0][1][1]
+            a0 = src(call.args[0]) if call.args else "?"
+            okr = a0 == f"{cvar}.expr"
+            rep.ob("R05.4", "extract_constraints", okr, "rhs = constant term of the constraint's own expression" if okr else f"the right-hand side is taken from `{a0}`, not from {cvar}.expr", loc=f"{ec.module.rel}:{loop.lineno}", detail=f"rhs:{sense}")
 
 
 def _alignment(prog, rep):
     L = prog.cls("LinearProgramExtractor")
     eo = L.methods.get("extract_objective")
-    s = src(eo.node)
-    ok = Frag(s, "variables = problem.variables", "var_index = {var.name: i for i, var in enumerate(variables)}", "c = extract_all_linear_coefficients(problem.objective, var_index, n)", "return (c, sense, variables)")
-    rep.pin('LP alignment', "R05.5", "extract_objective", ok, "columns = positions in problem.variables; the same list is returned" if ok else "the cost vector's column map is not {v.name: i} over problem.variables, or another list is returned", loc=eo.loc, detail="columns")
+    # columns of the cost vector = positions in problem.variables, and the same list is returned
+    a = local_assignments(eo.node)
+    vnames = [nm for nm, vals in a.items() if any(isinstance(v, ast.AST) and src(v).endswith(".variables") for v in vals)]
+    ok = False
+    if len(vnames) == 1:
+        vn = vnames[0]
+        cc = [c for c in calls(eo.node) if (dotted(c.func) or "").endswith("extract_all_linear_coefficients") and len(c.args) >= 2]
+        rets = [r.value for r in walk_local(eo.node) if isinstance(r, ast.Return) and isinstance(r.value, ast.Tuple)]
+        ok = bool(cc) and all(src(c.args[0]).endswith(".objective") and _index_map_over(prog, eo, c.args[1], vn) for c in cc) and bool(rets) and all(src(r.elts[-1]) == vn for r in rets)
+    rep.ob("R05.5", "extract_objective", ok, "columns = positions in problem.variables; the same list is returned" if ok else "the cost vector's column map is not {v.name: i} over problem.variables, or another list is returned", loc=eo.loc, detail="columns") if (ok or len(vnames) == 1) else rep.undecided("extract_objective: the local holding problem.variables not found")
     ec = L.methods.get("extract_constraints")
-    ok = "var_index = {var.name: i for i, var in enumerate(variables)}" in src(ec.node) and "n = len(variables)" in src(ec.node)
-    rep.pin('LP alignment', "R05.5", "extract_constraints", ok, "rows use the column map of the list passed in" if ok else "constraint rows are not built over the variable list passed in", loc=ec.loc, detail="columns")
+    vparam = [x.arg for x in ec.node.args.args][-1]
+    cc = [c for c in calls(ec.node) if (dotted(c.func) or "").endswith("extract_all_linear_coefficients") and len(c.args) >= 3]
+    na = local_assignments(ec.node)
+    if not cc:
+        rep.undecided("extract_constraints: no call of extract_all_linear_coefficients found")
+    else:
+        okm = all(_index_map_over(prog, ec, c.args[1], vparam) for c in cc)
+        okn = all(src(c.args[2]) == f"len({vparam})" or (isinstance(c.args[2], ast.Name) and [src(v) for v in na.get(c.args[2].id, []) if isinstance(v, ast.AST)] == [f"len({vparam})"]) for c in cc)
+        rep.ob("R05.5", "extract_constraints", okm and okn, "rows use the column map (and the length) of the list passed in" if okm and okn else "constraint rows are not built over the variable list passed in", loc=ec.loc, detail="columns")
     eb = L.methods.get("extract_bounds")
-    sb = src(eb.node)
-    ok = Frag(sb, "for var in variables", "bounds.append((lb, ub))", "lb = var.lb", "ub = var.ub")
-    rep.pin('LP alignment', "R05.5", "extract_bounds", ok, "bounds[i] = (lb, ub) of variables[i]" if ok else "bounds are not (var.lb, var.ub) per variable in order", loc=eb.loc, detail="bounds")
+    bparam = [x.arg for x in eb.node.args.args][-1]
+    # bounds[i] = (lb, ub) of variables[i]: a loop / comprehension over the parameter appending a pair per variable
     from .common import bound_expr_problem
-    envb = {n.targets[0].id: n.value for n in walk_local(eb.node) if isinstance(n, ast.Assign) and isinstance(n.targets[0], ast.Name)}
-    for nm, v in envb.items():
-        prob_ = bound_expr_problem(v)
-        if any(isinstance(x, ast.Attribute) and x.attr in ("lb", "ub") for x in ast.walk(v)):
-            rep.ob("R05.5", "extract_bounds", prob_ is None, f"{nm} = {src(v)[:50]}: the declared bound, None only when it is None" if prob_ is None else prob_ + "; the LP is solved without that bound", loc=f"{eb.module.rel}:{v.lineno}", detail=f"bound-value:{nm}")
+    pairs = []
+    for n in walk_local(eb.node):
+        if isinstance(n, ast.ListComp) and len(n.generators) == 1 and src(n.generators[0].iter) == bparam and isinstance(n.elt, ast.Tuple) and len(n.elt.elts) == 2 and not n.generators[0].ifs:
+            pairs.append((src(n.generators[0].target), n.elt.elts[0], n.elt.elts[1], {}, n))
+        if isinstance(n, ast.For) and src(n.iter) == bparam and isinstance(n.target, ast.Name):
+            env = {st.targets[0].id: st.value for st in n.body if isinstance(st, ast.Assign) and isinstance(st.targets[0], ast.Name)}
+            for c in ast.walk(n):
+                if isinstance(c, ast.Call) and isinstance(c.func, ast.Attribute) and c.func.attr == "append" and c.args and isinstance(c.args[0], ast.Tuple) and len(c.args[0].elts) == 2:
+                    pairs.append((n.target.id, c.args[0].elts[0], c.args[0].elts[1], env, n))
+    if not pairs:
+        rep.undecided("extract_bounds: no (lb, ub) pair per variable found")
+    for var, lo, hi, env, node in pairs:
+        lo_v = env.get(lo.id, lo) if isinstance(lo, ast.Name) else lo
+        hi_v = env.get(hi.id, hi) if isinstance(hi, ast.Name) else hi
+        for nm, v, attr in (("lb", lo_v, "lb"), ("ub", hi_v, "ub")):
+            reads = {x.attr for x in ast.walk(v) if isinstance(x, ast.Attribute) and isinstance(x.value, ast.Name) and x.value.id == var}
+            okp = reads == {attr}
+            prob_ = bound_expr_problem(v) if okp else None
+            rep.ob("R05.5", "extract_bounds", okp and prob_ is None,
+                   f"{nm} = {src(v)[:50]}: the declared bound of the variable at that position, None only when it is None" if okp and prob_ is None else
+                   ((prob_ + "; the LP is solved without that bound") if okp else f"the {nm} entry of a bounds pair is `{src(v)[:40]}`, not {var}.{attr}"),
+                   loc=f"{eb.module.rel}:{getattr(v, 'lineno', node.lineno)}", detail=f"bound-value:{nm}")
     ex = L.methods.get("extract")
     se = src(ex.node)
     ok = all(f"{k}={k}" in se for k in ("c", "sense", "A_ub", "b_ub", "A_eq", "b_eq", "bounds"))
